@@ -140,7 +140,7 @@ theorem foreign_examples : ∀ n ∈ ["RecursionError", "OverflowError", "KeyErr
 
 /-! ### handler coverage
 
-  Full statement (false for the code as it is — findings C11-F4, C11-F5, C11-F6, C11-F8):
+  Full statement (false for the code as it is — findings C11-F4, C11-F5, C11-F6, C11-F8, C11-F9):
     `∀ s ∈ sites, ∀ c ∈ raisableAt s.name, catches s.handlers c = true`.
   Proved with the listed gaps excluded; each gap has its counter-example on the handler list
   as written in the source today, and a fix in notes/fixes that closes it. -/
@@ -196,8 +196,9 @@ theorem handlers_cover_counterexample_parse :
     catches ["SyntaxError", "LookupError", "ValueError"] lk = true ∧
     catches ["SyntaxError", "LookupError", "ValueError"] ve = true := by decide
 
-/-- C11-F8: `except ElementPathError` around the evaluation of an XSD 1.1 assertion does not catch the
-    decimal.InvalidOperation of a NaN comparison nor the plain ValueError of a malformed QName. -/
+/-- C11-F8 / C11-F9: `except ElementPathError` around the evaluation of an XSD 1.1 assertion does not
+    catch the decimal.InvalidOperation of a NaN comparison (F8) nor the plain ValueError that
+    elementpath raises for a malformed xsi:type QName in the subtree (F9). -/
 theorem handlers_cover_counterexample_assert :
     let io : Exc := ⟨"InvalidOperation", ["InvalidOperation", "DecimalException", "ArithmeticError", "Exception",
                                           "BaseException", "object"]⟩
